@@ -199,6 +199,29 @@ def run(ctx):
                             fresh = any(cc.name in ("PacketWindowFilter::new", "Default::default") for (_, cc, _) in calls) and \
                                 not any(cc.name == "Clone::clone" for (_, cc, _) in calls)
                         ctors.append((b, s, fresh))
+        # F3b the filter of a live session is never cleared or replaced: outside the functions that construct the holder, the field is not
+        # assigned as a whole and no state-clearing method of the filter (a `&mut self` method without an id argument) is called on it
+        ctor_fns = {b.defp for (b, _, _) in ctors}
+        for b in prog.prod_bodies():
+            if b.defp in ctor_fns or (b.impl_self_def or "").endswith("PacketWindowFilter"):
+                continue
+            for blk in b.rpo():
+                for s in b.stmts(blk):
+                    if s["k"] == "assign" and s["p"][1]:
+                        fl = [e for e in s["p"][1] if e[0] == "field"]
+                        last = s["p"][1][-1]
+                        if fl and last[0] == "field" and (last[2] == fname) and last_seg(it["path"]) in b.local_ty(s["p"][0]).replace("&mut ", "").replace("&", ""):
+                            ctx.ob("F3", b.defp, f"{last_seg(it['path'])}:filter-never-replaced", loc(s["sp"]), False,
+                                   f"the per-session replay filter (`{fname}`) is replaced with a new one in a live session: the ids accepted so far are forgotten, "
+                                   "so a datagram that was already delivered (or lies behind the window) is accepted again")
+            for (blk, c, t) in b.calls():
+                if (c.self_def or "").endswith("PacketWindowFilter") and c.target not in fpaths and t["args"]:
+                    cb = prog.body(c.target)
+                    clears = cb is not None and cb.argc == 1 and cb.local_ty(1).startswith("&mut") and cb.local_ty(0) == "()"
+                    if clears and (b.defp, blk) not in ctx.__dict__.setdefault("_f3_seen", set()):
+                        ctx._f3_seen.add((b.defp, blk))
+                        ctx.ob("F3", b.defp, f"filter-never-cleared:{c.method}", loc(t["sp"]), False,
+                               f"`{c.name}` clears the replay filter of a live session: ids accepted so far are forgotten and replays of them pass again")
         ctx.floor("F3", f"constructions of {last_seg(it['path'])}", 1, len(ctors))
         for (b, s, fresh) in ctors:
             ctx.ob("F3", b.defp, f"{last_seg(it['path'])}:fresh-filter", loc(s["sp"]), fresh, "filter is created fresh with the session object" if fresh else "filter is not created fresh (cloned / shared)")
